@@ -3,6 +3,7 @@
 // never pulled in by the linker: every symbol it defines is defined here, from the same source).
 //   quad gen asm SEED COUNT     quad gen solve SEED COUNT     quad gen place SEED COUNT     quad gen fasm SEED COUNT
 //   quad gen placep SEED COUNT (PLACE lines with a parameter tail) / placecb (PLACECB lines)
+//   quad gen casm SEED COUNT (CASM lines) / csolve (CSOLVE lines): net models built from a circuit through x/yTopology, see genCirc
 //   quad gen coin SEED COUNT (ASM lines) / fcoin (FASM lines) / scoin (SOLVE lines, kinds 1..4): EXACT coincidences of pin positions, see genCoin
 //   quad run < cases
 // A rational is "num e" = num / 2^e (e >= 0, |num| < 2^24): exactly a float.
@@ -24,6 +25,12 @@
 // SOLVEK k kind tol maxit <ASM body>   as SOLVE, for the factors 2^0 and 2^k only (std::ldexp on every weight and strength; "num e" may
 //   have any e): the two result vectors as float bit patterns, separated by " | "   (range of k in which the conjugate gradient
 //   is scale-covariant: design/C17.md, "What the theorem does not give")
+// CASM axis mode epsN epsE W nrows rowh ox oy ncells {w h fixed x y}* nnets { np wN wE {cell xo yo}*np }* npl {pl}*npl pen [cutoff {target strength}*ncells]
+//   the net model is built from a CIRCUIT (cells, rows [ox, ox+W] x nrows rows of height rowh from oy, nets with integer pin offsets from
+//   the lower-left corner, weight wN / 2^wE) by NetModel::xTopology (axis 0) or yTopology (axis 1) -- the path Circuit::placeGlobal uses --
+//   then assembled exactly as ASM (same modes 0..4, same result format; the homogeneity test rebuilds the circuit with the weights times 2, 1/2)
+// CSOLVE kind tol maxit <CASM body from axis on>    the same for SOLVE (same kinds, factors and result format)
+//   streams "casm" / "csolve": nets with several pins on ONE movable cell (listed twice, aligned in one axis, all on one cell), see genCirc
 // PLACEAT ox oy <PLACE body>   the same with the rows and the cells translated by (ox, oy) (finding F30: no fixed cell, offsets up to 2^22)
 // PLACE netmodel seed maxsteps W nrows rowh ncells {w fixed x y}* nnets { np w4 {cell xo yo}* }*
 //   result: per factor in 1 2 0.5 2.5 7 (weights and penalty.initialValue times the factor):
@@ -133,9 +140,9 @@ static std::string homog(const Sys &a, const Sys &k, float f) {
   return "";
 }
 
-static void runAsm(Rd &r) {
-  Body b = readBody(r);
-  NetModel nm = buildNM(b, 1.0f);
+typedef std::function<NetModel(float)> NmBuilder;     // the net model with every net weight times the factor
+static void runAsmWith(const Body &b, const NmBuilder &build) {
+  NetModel nm = build(1.0f);
   Sys s = assemble(nm, b, 1.0f);
   std::string out; char buf[96];
   snprintf(buf, 96, "%zu | ", s.rhs.size()); out += buf;
@@ -146,9 +153,13 @@ static void runAsm(Rd &r) {
   out += " | "; for (size_t i = 0; i < s.nmat.size(); ++i) { snprintf(buf, 96, "%s%d %d %s", i ? ";" : "", s.nmat[i].row(), s.nmat[i].col(), showf(s.nmat[i].value()).c_str()); out += buf; }
   out += " | "; for (size_t i = 0; i < s.nrhs.size(); ++i) { out += (i ? ";" : ""); out += showf(s.nrhs[i]); }
   std::string h;
-  for (float f : {2.0f, 0.5f}) { NetModel nk = buildNM(b, f); Sys sk = assemble(nk, b, f); h = homog(s, sk, f); if (!h.empty()) break; }
+  for (float f : {2.0f, 0.5f}) { NetModel nk = build(f); Sys sk = assemble(nk, b, f); h = homog(s, sk, f); if (!h.empty()) break; }
   snprintf(buf, 96, " # IX=%d H=", s.inexact ? 1 : 0); out += buf; out += h.empty() ? "OK" : h;
   printf("%s\n", out.c_str());
+}
+static void runAsm(Rd &r) {
+  Body b = readBody(r);
+  runAsmWith(b, [&](float f) { return buildNM(b, f); });
 }
 
 static std::string bitsf(float v) { uint32_t u; memcpy(&u, &v, 4); char b[16]; snprintf(b, 16, "%08x", u); return b; }
@@ -177,13 +188,11 @@ static void runFasm(Rd &r) {
 }
 
 static const float kSolveFactors[8] = {1.0f, 2.0f, 0.25f, 1024.0f, 2.5f, 7.0f, 1.0f / 1048576.0f, 1.0f / 16777216.0f};   // the last two: 2^-20, 2^-24 (tiny common factors, e.g. weights normalised to sum to one)
-static void runSolve(Rd &r) {
-  int kind = (int)r.nx(); float tol = r.q(); int maxit = (int)r.nx();
-  Body b = readBody(r);
+static void runSolveWith(int kind, float tol, int maxit, const Body &b, const NmBuilder &build) {
   std::string out;
   for (int k = 0; k < 8; ++k) {
     float f = kSolveFactors[k];
-    NetModel nm = buildNM(b, f);
+    NetModel nm = build(f);
     std::vector<float> st = b.st; for (auto &s : st) s *= f;
     NetModel::Parameters p; p.netModel = optOf(b.mode); p.approximationDistance = b.eps; p.penaltyCutoffDistance = b.cutoff;
     p.tolerance = tol; p.maxNbIterations = maxit;
@@ -198,6 +207,42 @@ static void runSolve(Rd &r) {
     for (size_t i = 0; i < res.size(); ++i) { uint32_t u; memcpy(&u, &res[i], 4); char buf[16]; snprintf(buf, 16, "%s%08x", i ? " " : "", u); out += buf; }
   }
   printf("%s\n", out.c_str());
+}
+static void runSolve(Rd &r) {
+  int kind = (int)r.nx(); float tol = r.q(); int maxit = (int)r.nx();
+  Body b = readBody(r);
+  runSolveWith(kind, tol, maxit, b, [&](float f) { return buildNM(b, f); });
+}
+
+// ---- CASM / CSOLVE: the net model is built from a CIRCUIT through NetModel::xTopology / yTopology (the path Circuit::placeGlobal uses),
+// not by NetModel::addNet calls of the harness.  The rest is runAsm / runSolve unchanged (same result format).
+struct Circ { int axis, W, nrows, rowh, ox, oy, nc; std::vector<int> cw, ch, cx, cy; std::vector<bool> fx;
+  struct N { std::vector<int> c, xo, yo; float w; }; std::vector<N> nets; };
+static Circ readCirc(Rd &r, Body &b) {
+  Circ c; c.axis = (int)r.nx(); b.mode = (int)r.nx(); b.eps = r.q();
+  c.W = (int)r.nx(); c.nrows = (int)r.nx(); c.rowh = (int)r.nx(); c.ox = (int)r.nx(); c.oy = (int)r.nx(); c.nc = (int)r.nx(); b.nc = c.nc;
+  for (int i = 0; i < c.nc; ++i) { c.cw.push_back((int)r.nx()); c.ch.push_back((int)r.nx()); c.fx.push_back(r.nx() != 0); c.cx.push_back((int)r.nx()); c.cy.push_back((int)r.nx()); }
+  int nn = (int)r.nx();
+  for (int i = 0; i < nn; ++i) { Circ::N n; int np = (int)r.nx(); n.w = r.q();
+    for (int j = 0; j < np; ++j) { n.c.push_back((int)r.nx()); n.xo.push_back((int)r.nx()); n.yo.push_back((int)r.nx()); } c.nets.push_back(n); }
+  int npl = (int)r.nx(); for (int i = 0; i < npl; ++i) b.pl.push_back(r.q());
+  b.pen = r.nx() != 0; b.cutoff = 0;
+  if (b.pen) { b.cutoff = r.q(); for (int i = 0; i < b.nc; ++i) { b.tg.push_back(r.q()); b.st.push_back(r.q()); } }
+  return c;
+}
+static NetModel topoOf(const Circ &c, float f) {
+  Circuit ck(c.nc);
+  ck.setCellWidth(c.cw); ck.setCellHeight(c.ch); ck.setCellX(c.cx); ck.setCellY(c.cy); ck.setCellIsFixed(c.fx);
+  std::vector<Row> rows; for (int i = 0; i < c.nrows; ++i) rows.emplace_back(c.ox, c.ox + c.W, c.oy + i * c.rowh, c.oy + (i + 1) * c.rowh, i % 2 ? CellOrientation::FS : CellOrientation::N);
+  ck.setRows(rows);
+  for (auto &n : c.nets) ck.addNet(n.c, n.xo, n.yo, n.w * f);
+  return c.axis ? NetModel::yTopology(ck) : NetModel::xTopology(ck);
+}
+static void runCasm(Rd &r) { Body b; Circ c = readCirc(r, b); runAsmWith(b, [&](float f) { return topoOf(c, f); }); }
+static void runCsolve(Rd &r) {
+  int kind = (int)r.nx(); float tol = r.q(); int maxit = (int)r.nx();
+  Body b; Circ c = readCirc(r, b);
+  runSolveWith(kind, tol, maxit, b, [&](float f) { return topoOf(c, f); });
 }
 
 static void runSolveK(Rd &r) {
@@ -520,10 +565,100 @@ static std::string genPlaceP(SplitMix &g, int tolZeroPct = 50, int minSteps = 1)
   return s.str();
 }
 
+// Circuits for CASM / CSOLVE (streams "casm", "csolve"): nets with SEVERAL PINS ON ONE MOVABLE CELL.  Net shapes: 0 a pin listed twice
+// (same cell, same x and y offset) + pins elsewhere; 1 two or three pins of one cell with EQUAL x offset and different y (vertically aligned:
+// coincide in the x model only); 2 equal y offset, different x; 3 three or more pins of one cell mixing identical / aligned / distinct ones,
+// + pins elsewhere; 4 ALL pins on one movable cell (finding F25), some identical; 5 ordinary net on distinct cells; 6 duplicated /
+// aligned pins on a FIXED cell (they merge into min/max) + movable pins.  2..8 cells (about a quarter fixed, at least one movable), widths
+// 1..9 (odd: half-integer centre offsets), heights one or two rows; pin offsets inside the cell (0..w, 0..h); weights k/4 (k = 1..12) or
+// k/2^j; the placement / penalty data of the body as in genBody (dyadic: integers; otherwise multiples of 2^-10).
+static std::string genCirc(SplitMix &g, bool dyadic, int mode, bool wantPen, bool anchored) {
+  std::ostringstream s;
+  int axis = (int)g.uni(0, 1);
+  int nc = (int)g.uni(2, 8), nrows = (int)g.uni(1, 4), rowh = 8, W = (int)g.uni(24, 80);
+  int ox = g.coin(70) ? 0 : (int)g.uni(-40, 40), oy = g.coin(70) ? 0 : (int)g.uni(-40, 40);
+  std::vector<int> cw(nc), ch(nc), fx(nc), cx(nc), cy(nc); std::vector<int> mov, fixd;
+  for (int c = 0; c < nc; ++c) {
+    cw[c] = (int)g.uni(1, 9); ch[c] = g.coin(80) ? rowh : 2 * rowh; fx[c] = c > 0 && (g.coin(anchored ? 35 : 25) || (anchored && c == nc - 1));
+    cx[c] = ox + (int)g.uni(0, std::max(0, W - cw[c])); cy[c] = oy + (int)g.uni(0, nrows - 1) * rowh;
+    if (fx[c] && g.coin(10)) cx[c] = ox + W + (int)g.uni(0, 6);                   // a fixed cell (partly) outside the placement area: the extent is clamped
+    (fx[c] ? fixd : mov).push_back(c);
+  }
+  s << axis << " " << mode << " ";
+  if (dyadic) { int e = (int)g.uni(0, 2); s << qstr(1LL << g.uni(0, 4), e); } else s << qstr(g.uni(410, 40960), 12);
+  s << " " << W << " " << nrows << " " << rowh << " " << ox << " " << oy << " " << nc;
+  for (int c = 0; c < nc; ++c) s << " " << cw[c] << " " << ch[c] << " " << fx[c] << " " << cx[c] << " " << cy[c];
+  int nn = (int)g.uni(1, 5);
+  std::string headStr = s.str(); s.str(""); s.clear();
+  auto anyMov = [&]() { return mov[g.uni(0, (long long)mov.size() - 1)]; };
+  struct P { int c, xo, yo; }; std::vector<std::vector<P>> allNets; std::vector<bool> pure; std::vector<std::string> wts;
+  for (int n = 0; n < nn; ++n) {
+    int shape = n == 0 ? (int)g.uni(0, 4) : (int)g.uni(0, 6);
+    if (shape == 6 && fixd.empty()) shape = 0;
+    std::vector<P> pins;
+    auto rnd = [&](int c) { return P{c, (int)g.uni(0, cw[c]), (int)g.uni(0, ch[c])}; };
+    auto others = [&](int lo, int hi) { int k = (int)g.uni(lo, hi); for (int j = 0; j < k; ++j) { int c = (int)g.uni(0, nc - 1); pins.push_back(rnd(c)); } };
+    int c0 = shape == 6 ? fixd[g.uni(0, (long long)fixd.size() - 1)] : anyMov();
+    P a = rnd(c0);
+    auto otherY = [&](const P &q) { P b = q; do { b.yo = (int)g.uni(0, ch[c0]); } while (b.yo == q.yo); return b; };
+    auto otherX = [&](const P &q) { P b = q; do { b.xo = (int)g.uni(0, cw[c0]); } while (b.xo == q.xo); return b; };
+    switch (shape) {
+      case 0: pins.push_back(a); pins.push_back(a); if (g.coin(25)) pins.push_back(a); others(anchored ? 1 : 0, 3); break;
+      case 1: pins.push_back(a); pins.push_back(otherY(a)); if (g.coin(30)) pins.push_back(otherY(a)); others(anchored ? 1 : 0, 3); break;
+      case 2: pins.push_back(a); pins.push_back(otherX(a)); if (g.coin(30)) pins.push_back(otherX(a)); others(anchored ? 1 : 0, 3); break;
+      case 3: { int k = (int)g.uni(3, 5); pins.push_back(a);
+        for (int j = 1; j < k; ++j) { int q = (int)g.uni(0, 3); pins.push_back(q == 0 ? a : q == 1 ? otherY(a) : q == 2 ? otherX(a) : rnd(c0)); }
+        others(1, 3); break; }
+      case 4: { int k = (int)g.uni(2, 5); pins.push_back(a);
+        for (int j = 1; j < k; ++j) { int q = (int)g.uni(0, 3); pins.push_back(q == 0 ? a : q == 1 ? otherY(a) : q == 2 ? otherX(a) : rnd(c0)); }
+        break; }
+      case 5: { int k = (int)g.uni(2, 5); std::vector<int> cs; for (int c = 0; c < nc; ++c) cs.push_back(c);
+        for (int j = 0; j < k && !cs.empty(); ++j) { int q = (int)g.uni(0, (long long)cs.size() - 1); pins.push_back(rnd(cs[q])); cs.erase(cs.begin() + q); }
+        break; }
+      default: pins.push_back(a); pins.push_back(g.coin(50) ? a : g.coin(50) ? otherY(a) : otherX(a)); { int m0 = anyMov(); pins.push_back(rnd(m0)); if (g.coin(50)) pins.push_back(rnd(m0)); } others(0, 2); break;
+    }
+    if (anchored && shape != 4 && !fixd.empty() && g.coin(85)) pins.push_back(rnd(fixd[g.uni(0, (long long)fixd.size() - 1)]));
+    allNets.push_back(pins); pure.push_back(shape == 4);
+    wts.push_back(g.coin(60) ? qstr(g.uni(1, 12), 2) : qstr(g.uni(1, 12), (int)g.uni(0, 3)));
+  }
+  if (anchored) {       // every movable cell is on some net that is not confined to one cell (most systems are then non-singular without the regulariser)
+    std::vector<int> open; for (int n = 0; n < nn; ++n) if (!pure[n]) open.push_back(n);
+    if (open.empty()) { std::vector<P> pins; for (int c : fixd) { pins.push_back(P{c, (int)g.uni(0, cw[c]), (int)g.uni(0, ch[c])}); break; }
+      allNets.push_back(pins); pure.push_back(false); wts.push_back(qstr(g.uni(1, 12), 2)); open.push_back(nn); }
+    for (int c : mov) {
+      bool seen = false; for (int n : open) for (auto &q : allNets[n]) if (q.c == c) seen = true;
+      if (!seen) allNets[open[g.uni(0, (long long)open.size() - 1)]].push_back(P{c, (int)g.uni(0, cw[c]), (int)g.uni(0, ch[c])});
+    }
+  }
+  s << headStr << " " << allNets.size();
+  for (size_t n = 0; n < allNets.size(); ++n) {
+    auto &pins = allNets[n];
+    if (g.coin(50)) for (size_t j = pins.size(); j > 1; --j) std::swap(pins[j - 1], pins[g.uni(0, (long long)j - 1)]);    // the duplicates need not be adjacent
+    s << " " << pins.size() << " " << wts[n];
+    for (auto &q : pins) s << " " << q.c << " " << q.xo << " " << q.yo;
+  }
+  std::vector<long long> plI(nc);
+  long long lo = axis ? oy : ox, hi = axis ? oy + nrows * rowh : ox + W;
+  for (auto &q : plI) q = dyadic ? g.uni(lo, hi) : g.uni(lo * 1024, hi * 1024);
+  if (g.coin(15)) for (int c = 1; c < nc; ++c) plI[c] = plI[0];                   // all cells stacked (the first lower bound without fixed pins)
+  bool needPl = mode >= 1 && mode <= 4;
+  s << " " << (needPl || wantPen ? nc : 0);
+  if (needPl || wantPen) for (int i = 0; i < nc; ++i) s << " " << (dyadic ? qstr(plI[i], 0) : qstr(plI[i], 10));
+  s << " " << (wantPen ? 1 : 0);
+  if (wantPen) {
+    if (dyadic) s << " " << (1LL << g.uni(0, 6)) << " 0"; else s << " " << qstr(g.uni(410, 409600), 12);
+    for (int i = 0; i < nc; ++i) {
+      if (dyadic) { long long dd = g.coin(30) ? 0 : (1LL << g.uni(0, 4)) * (g.coin(50) ? 1 : -1); s << " " << (plI[i] + dd) << " 0 " << qstr(g.uni(1, 12), 2); }
+      else s << " " << qstr(plI[i] + g.uni(-30 * 1024, 30 * 1024), 10) << " " << qstr(g.uni(1 << 10, 1 << 19), 17);
+    }
+  }
+  return s.str();
+}
+
 int main(int argc, char **argv) {
   std::string mode = argc > 1 ? argv[1] : "run";
   if (mode == "gen") {
-    std::string what = argv[2]; SplitMix g((uint64_t)atoll(argv[3]) * 7919 + (what == "asm" ? 1 : what == "solve" ? 2 : what == "fasm" ? 4 : what == "coin" ? 5 : what == "fcoin" ? 6 : what == "scoin" ? 7 : what == "placecb" ? 8 : what == "far" ? 9 : what == "placeat" ? 10 : 3)); int count = atoi(argv[4]);
+    std::string what = argv[2]; SplitMix g((uint64_t)atoll(argv[3]) * 7919 + (what == "asm" ? 1 : what == "solve" ? 2 : what == "fasm" ? 4 : what == "coin" ? 5 : what == "fcoin" ? 6 : what == "scoin" ? 7 : what == "placecb" ? 8 : what == "far" ? 9 : what == "placeat" ? 10 : what == "casm" ? 11 : what == "csolve" ? 12 : 3)); int count = atoi(argv[4]);
     if (what == "coin") {
       for (int i = 0; i < count; ++i) { int m = (int)g.uni(1, 4); bool dy = g.coin(60); printf("ASM %s\n", genCoin(g, dy, m, g.coin(35)).c_str()); }
     } else if (what == "fcoin") {
@@ -556,6 +691,21 @@ int main(int argc, char **argv) {
         else { gWShift = -(int)g.uni(90, 110); k = g.coin(60) ? (int)g.uni(-12, 12) : (int)g.uni(10, 30); }
         printf("FASM %d %s\n", k, genBody(g, dy, m, pen, false).c_str());
         gWShift = 0;
+      }
+    } else if (what == "casm") {
+      // the assembly of all five entry points (createStar(topo), B2B, Star, Clique, LightStar) on net models built from a circuit
+      for (int i = 0; i < count; ++i) {
+        bool dy = g.coin(60); int m = (int)g.uni(0, 4);
+        bool pen = m >= 1 && g.coin(40);
+        printf("CASM %s\n", genCirc(g, dy, m, pen, false).c_str());
+      }
+    } else if (what == "csolve") {
+      // the solvers on net models built from a circuit; kind 0 = solveStar(params) in 45 % (least-squares oracle), the others as in "solve"
+      static const char *tols[] = {"8589935 43", "11258999 40", "13743895 37"};
+      for (int i = 0; i < count; ++i) {
+        int kind = g.coin(45) ? 0 : (int)g.uni(1, 5); int m = kind == 0 ? 0 : (kind == 4 ? 1 : (kind == 3 ? 2 : (int)g.uni(1, 4)));
+        bool pen = kind == 2 || kind == 4;
+        printf("CSOLVE %d %s %d %s\n", kind, tols[g.uni(0, 2)], (int)g.uni(100, 1000), genCirc(g, g.coin(30), m, pen, true).c_str());
       }
     } else if (what == "scoin") {
       // the solvers that linearise around a placement, on the bodies with exact coincidences
@@ -676,6 +826,8 @@ int main(int argc, char **argv) {
     try {
       if (tag == "ASM") runAsm(r);
       else if (tag == "SOLVE") runSolve(r);
+      else if (tag == "CASM") runCasm(r);
+      else if (tag == "CSOLVE") runCsolve(r);
       else if (tag == "FASM") runFasm(r);
       else if (tag == "SOLVEK") runSolveK(r);
       else if (tag == "PLACE") runPlace(r);
